@@ -238,13 +238,20 @@ pub fn check(c: &Case) -> Outcome {
 pub fn strategy() -> BoxedStrategy<Case> {
     // ordinary spans; one case in twelve runs on a picosecond-scale time axis (accepted steps shorter than the
     // root finder's absolute time tolerance)
-    let span = prop_oneof![11 => span_mid().boxed(), 1 => (fr(-11.3, -8.0), any::<bool>()).prop_map(|(e, back)| mk_span(0.0, 10f64.powf(e), back)).boxed()];
+    // ... and one in thirteen far from the origin (|x0| = 1e5..1e12: the root finder's and the handler's absolute
+    // tolerances are far below the spacing of the time axis; autonomous problems there)
+    let span = prop_oneof![11 => span_mid().boxed(), 1 => (fr(-11.3, -8.0), any::<bool>()).prop_map(|(e, back)| mk_span(0.0, 10f64.powf(e), back)).boxed(), 1 => span_far().boxed()];
     (prob_spec(4, 0.5, 8.0), span, any_method(), tols(4, 3.0, 9.0), any::<bool>(), proptest::option::weighted(0.2, log10(-1.5, 0.0)), proptest::option::weighted(0.25, log10(-3.0, -0.7)))
         .prop_flat_map(|(prob, span, method, tol, aj, ms, fs)| {
             let n: usize = prob.blocks.iter().map(|b| b.dim()).sum();
             (Just((prob, span, method, tol, aj, ms, fs)), recipes(n, 4, 0.25))
         })
-        .prop_map(|((prob, span, method, (rtol, atol), analytic_jac, max_step, first_step), recipes)| Case { prob, span, method, rtol, atol, analytic_jac, max_step, recipes, first_step })
+        .prop_map(|((mut prob, span, method, (rtol, atol), analytic_jac, max_step, first_step), recipes)| {
+            if span.x0.abs() > 1e4 {
+                prob.warp.k = 0;
+            }
+            Case { prob, span, method, rtol, atol, analytic_jac, max_step, recipes, first_step }
+        })
         .boxed()
 }
 
